@@ -9,7 +9,7 @@ from util import call, quiet
 
 REQUIRED_THEOREMS = ['Usid.C09.change_count', 'Usid.C09.counts_strict', 'Usid.C09.sizes',
                      'Usid.C09.order_is_rate', 'Usid.C09.unit_values', 'Usid.C09.rebuild_indices']
-RULE = ('regular grids of 1-4 dimensions, sizes 1-5 (biased to 1, equal sizes; a fifth with a dimension whose reference values are not distinct), every/random storage permutation, '
+RULE = ('[also: reference values not increasing with the index; tall / dask / int64 / h5py inputs to the free functions, verbose=True, a single name as str, float32 values for the rebuild; n_dim_labels / n_dim_sizes and the ORDER of the sorted view observed] regular grids of 1-4 dimensions, sizes 1-5 (biased to 1, equal sizes; a fifth with a dimension whose reference values are not distinct), every/random storage permutation, '
         'position- and spectroscopic-shaped, INCLUDING as many or more dimensions than points; get_sort_order, '
         'get_dimensionality, get_unit_values (is_spec given, and None where the shape is unambiguous), '
         'create_spec_inds_from_vals, and the USIDataset accessors get_pos_values / get_spec_values / *_dim_sizes; '
@@ -32,7 +32,7 @@ def generate(seed, tier):
         n_rand = {'quick': 250, 'search': 1500}[tier]
     for i in range(n_rand):
         rng = derived_rng(seed, 'C09', i)
-        side = gen.gen_side(rng, 'D', max_dims=4, max_size=5, long_prob=0.12, dup_prob=0.2)
+        side = gen.gen_side(rng, 'D', max_dims=4, max_size=5, long_prob=0.12, dup_prob=0.2, unsorted_prob=0.25)
         if i % 9 == 8:                         # as many or more dimensions than points
             k = rng.randint(2, 4)
             sizes = rng.choice([[1] * k, [1] * (k - 1) + [2], [2] + [1] * (k - 1)])
@@ -87,6 +87,22 @@ def run_impl(inp, work):
     out['uv_auto'] = uv()
     r = call(create_spec_inds_from_vals, vals_kn.astype(np.float64))
     out['rebuild'] = np.asarray(r[1]).tolist() if r[0] == 'ok' else {'err': r[1]}
+    r = call(create_spec_inds_from_vals, vals_kn.astype(np.float32))           # as stored on file
+    out['rebuild_f4'] = np.asarray(r[1]).tolist() if r[0] == 'ok' else {'err': r[1]}
+    # the same questions with other argument forms: position-shaped (tall) matrices, dask arrays, verbose output
+    import dask.array as da
+    alt = {}
+    if k < n:
+        for nm, arg in (('tall', inds_nk), ('dask', da.from_array(inds_kn, chunks=inds_kn.shape)),
+                        ('int64', inds_kn.astype(np.int64))):
+            r1, r2 = call(get_sort_order, arg), call(get_dimensionality, arg)
+            alt[nm] = {'order': [int(x) for x in r1[1]] if r1[0] == 'ok' else {'err': r1[1]},
+                       'dims': [int(x) for x in r2[1]] if r2[0] == 'ok' else {'err': r2[1]}}
+    out['alt'] = alt
+    with quiet():
+        r = call(get_unit_values, stored_i, stored_v, all_dim_names=list(side['labels']), dim_names=inp['want'],
+                 is_spec=is_spec, verbose=True)
+    out['uv_verbose'] = {k2: _q(v) for k2, v in r[1].items()} if r[0] == 'ok' else {'err': r[1]}
     # through the dataset object
     ds = {'pos': side, 'spec': _other_side(), 'dtype': 'f8'} if inp['as'] == 'pos' else \
         {'pos': _other_side(), 'spec': side, 'dtype': 'f8'}
@@ -99,13 +115,32 @@ def run_impl(inp, work):
             out['wrapper'] = {'err': r[1]}
         else:
             u = r[1]
+            # the free functions on the HDF5 datasets themselves (labels read from the attributes; a single name as str)
+            hi = f['G/Position_Indices'] if inp['as'] == 'pos' else f['G/Spectroscopic_Indices']
+            hv = f['G/Position_Values'] if inp['as'] == 'pos' else f['G/Spectroscopic_Values']
+            h5q = {}
+            if k < n:
+                r1, r2 = call(get_sort_order, hi), call(get_dimensionality, hi)
+                h5q['order'] = [int(x) for x in r1[1]] if r1[0] == 'ok' else {'err': r1[1]}
+                h5q['dims'] = [int(x) for x in r2[1]] if r2[0] == 'ok' else {'err': r2[1]}
+            one = (inp['want'] or list(side['labels']))[0]
+            r3 = call(get_unit_values, hi, hv, dim_names=one, is_spec=(inp['as'] == 'spec'))
+            h5q['uv_one'] = {k2: _q(v) for k2, v in r3[1].items()} if r3[0] == 'ok' else {'err': r3[1]}
+            out['h5'] = h5q
             w = {'sizes': [int(x) for x in (u.pos_dim_sizes if inp['as'] == 'pos' else u.spec_dim_sizes)],
                  'labels': [str(x) for x in (u.pos_dim_labels if inp['as'] == 'pos' else u.spec_dim_labels)], 'values': {}}
             for lab in side['labels']:
                 rr = call(u.get_pos_values if inp['as'] == 'pos' else u.get_spec_values, lab)
                 w['values'][lab] = _q(rr[1]) if rr[0] == 'ok' else {'err': rr[1]}
             # the same questions in the SORTED view (labels and sizes are re-ordered there; the ancillaries are not)
+            w['n_dim'] = [[str(x) for x in u.n_dim_labels], [int(x) for x in u.n_dim_sizes],
+                          [str(x) for x in u.pos_dim_labels] + [str(x) for x in u.spec_dim_labels],
+                          [int(x) for x in u.pos_dim_sizes] + [int(x) for x in u.spec_dim_sizes]]
             u.toggle_sorting()
+            w['sorted_labels'] = [str(x) for x in (u.pos_dim_labels if inp['as'] == 'pos' else u.spec_dim_labels)]
+            w['n_dim_sorted'] = [[str(x) for x in u.n_dim_labels], [int(x) for x in u.n_dim_sizes],
+                                 [str(x) for x in u.pos_dim_labels] + [str(x) for x in u.spec_dim_labels],
+                                 [int(x) for x in u.pos_dim_sizes] + [int(x) for x in u.spec_dim_sizes]]
             w['sorted_sizes_by_label'] = dict(zip([str(x) for x in (u.pos_dim_labels if inp['as'] == 'pos' else u.spec_dim_labels)],
                                                   [int(x) for x in (u.pos_dim_sizes if inp['as'] == 'pos' else u.spec_dim_sizes)]))
             w['sorted_values'] = {}
@@ -164,6 +199,38 @@ def oracle(inp, obs):
         if w.get('sorted_sizes_by_label', want_sizes) != want_sizes:
             fails.append('wrapper-sizes-sorted-view-%s: sizes by label in the sorted view %s, true %s'
                          % (tag, w['sorted_sizes_by_label'], want_sizes))
+    # ---- other argument forms must give the same answers (k < n: the shape is unambiguous)
+    def same_order(o):
+        return isinstance(o, list) and sorted(o) == list(range(k)) and [d for d in o if sizes[d] > 1] == big_rate
+    for nm, a in list(obs.get('alt', {}).items()) + ([('h5py', obs['h5'])] if 'order' in obs.get('h5', {}) else []):
+        if not same_order(a['order']):
+            fails.append('order-%s-input: get_sort_order on a %s input gave %s (true rate %s, sizes %s)' % (nm, nm, a['order'], rate, sizes))
+        if a['dims'] != sizes:
+            fails.append('sizes-%s-input: get_dimensionality on a %s input gave %s, true %s' % (nm, nm, a['dims'], sizes))
+    if 'uv_verbose' in obs and obs['uv_verbose'] != obs['uv_explicit']:
+        fails.append('unit-values-verbose: verbose=True changes the result of get_unit_values: %s' % (obs['uv_verbose'],))
+    if 'h5' in obs and k <= n and not (k == n and inp['as'] == 'pos'):
+        one = (inp['want'] or labels)[0]
+        if obs['h5']['uv_one'] != {one: side['values'][labels.index(one)]} and tag == 'regular':
+            fails.append('unit-values-h5py: get_unit_values(h5 datasets, dim_names=%r) returned %s' % (one, obs['h5']['uv_one']))
+    if 'rebuild_f4' in obs and distinct and obs['rebuild_f4'] != want_inds:
+        fails.append('rebuild-float32-%s: create_spec_inds_from_vals on float32 values does not reproduce the indices' % tag)
+    if 'err' not in w and 'n_dim' in w and tag == 'regular':
+        nl, ns, cl, cs = w['n_dim']
+        if nl != cl or ns != cs:          # file order: position dimensions followed by the spectroscopic ones
+            fails.append('wrapper-n_dim: n_dim_labels / n_dim_sizes %s %s are not the position followed by the spectroscopic '
+                         'ones %s %s' % (nl, ns, cl, cs))
+        # sorted view: every label keeps its size, and this side's multi-valued dimensions are listed slowest first
+        # in n_dim_labels (the per-side lists of the sorted view are fastest first in this library: not part of the property)
+        nl, ns, cl, cs = w['n_dim_sorted']
+        size_by = dict(zip(labels, sizes))
+        size_by['OX'] = 3
+        if sorted(nl) != sorted(cl) or any(size_by.get(l) != z for l, z in zip(nl, ns)) or any(size_by.get(l) != z for l, z in zip(cl, cs)):
+            fails.append('wrapper-n_dim-sorted: labels and sizes of the sorted view do not pair up: %s %s / %s %s' % (nl, ns, cl, cs))
+        want_sorted = [labels[d] for d in reversed(big_rate)]
+        got_sorted = [l for l in nl if l in labels and sizes[labels.index(l)] > 1]
+        if got_sorted != want_sorted:
+            fails.append('wrapper-sorted-order: n_dim_labels in the sorted view %s, slowest-to-fastest is %s' % (nl, want_sorted))
     return fails
 
 
